@@ -21,8 +21,9 @@ Rec == Log[l]
 StateTypes == {4, 6, 7, 13, 16, 17, 20, 25, 30, 36, 37, 39, 40, 41, 45, 50, 11}
 
 Declared(r) == {r.types[i].ty : i \in 1..Len(r.types)}
-Labelled(r, ty) == LET i == CHOOSE k \in 1..Len(r.types) : r.types[k].ty = ty
-                   IN  {r.types[i].vals[k] : k \in 1..Len(r.types[i].vals)}
+Labelled(r, ty) == IF ty \notin Declared(r) THEN {}       \* (a type missing from the .pcf has no labels at all)
+                   ELSE LET i == CHOOSE k \in 1..Len(r.types) : r.types[k].ty = ty
+                        IN  {r.types[i].vals[k] : k \in 1..Len(r.types[i].vals)}
 
 TimesNonDecreasing(r) == \A i \in 1..(Len(r.lines) - 1) : r.lines[i][1] <= r.lines[i + 1][1]
 RowsInRange(r)    == \A i \in 1..Len(r.lines) : r.lines[i][2] >= 1 /\ r.lines[i][2] <= r.nrows
